@@ -6,6 +6,7 @@ from fractions import Fraction as F
 
 from ..comp import align, malign
 from ..lib import coqrun, driver, env, proofs, report
+from ..translate import scorers
 
 PROP = "C03"
 PROP_BITS = (3,)
@@ -31,9 +32,48 @@ def streams(tier, seed):
             ("malign_random", malign, "mcase", "mcase_code", mal)]
 
 
+def self_distance_search(run, tier, seed):
+    """Failing-input search for the self-distance clause on the real (non-grid) scorers: words over each
+    shipped model's inventory, all four modes, through Pairwise.  This is testing, not proof (the theorem
+    C03_self_distance_zero_shipped covers global/overlap/local; dialign has no theorem)."""
+    import logging
+    from lingpy.settings import rcParams
+    from lingpy.align.pairwise import Pairwise
+    rng = random.Random(seed + 7)
+    n_words = 40 if tier == "quick" else 600
+    fails, n, dist = 0, 0, {}
+    for name in ("sca", "dolgo", "asjp", "cv", "jaeger"):
+        model = rcParams[name]
+        keys = sorted(k for k, v in model.converter.items() if len(k) <= 2 and k.strip() and k not in "-+_#◦·"
+                      and v not in "0_+" and (v, v) in [(v, v)] and model.scorer[v, v] != -22.5)
+        for _ in range(n_words):
+            w = [rng.choice(keys) for _ in range(rng.randint(1, 7))]
+            for mode in ("global", "overlap", "local", "dialign"):
+                try:
+                    pw = Pairwise(" ".join(w), " ".join(w))
+                    pw.align(distance=True, model=model, mode=mode)
+                    d = pw.alignments[0][2]
+                except ZeroDivisionError:
+                    dist["zero_self_score"] = dist.get("zero_self_score", 0) + 1
+                    continue
+                n += 1
+                dist[name + "/" + mode] = dist.get(name + "/" + mode, 0) + 1
+                if abs(d) > 1e-9:
+                    fails += 1
+                    if fails <= 3:
+                        run.violation({"stream": "self_distance_real_scorers", "kind": "a word aligned with itself has "
+                                       "non-zero normalised distance", "model": name, "mode": mode, "tokens": w,
+                                       "distance": d, "alignment": [list(x) if isinstance(x, list) else x
+                                                                    for x in pw.alignments[0][:2]]}, no_input=False)
+    c = run.coverage
+    c["evaluations"] += n
+    c.setdefault("streams", {})["self_distance_real_scorers"] = {"cases": n, "failures": fails, "distribution": dist}
+    return fails
+
+
 def main(tier, seed):
     run = report.Run(PROP, tier, seed)
-    pr = proofs.check_property(PROP)
+    pr = proofs.check_property(PROP, gen=[scorers.generate])
     proofs_ok = run.proofs(pr)
     env.use_repo()
     d = coqrun.rundir(PROP)
@@ -46,6 +86,7 @@ def main(tier, seed):
     except coqrun.CoqError as e:
         run.violation({"kind": "model does not evaluate", "no_longer_checks": "Align/Calign.v, Align/Malign.v",
                        "error": str(e)}, no_input=True)
+    total_prop += self_distance_search(run, tier, seed)
     if not proofs_ok and not total_prop:
         run.violation({"kind": "proof obligation broken", "no_longer_checks": pr["broken"], "log": pr["log"][-1500:]},
                       no_input=True)
